@@ -57,7 +57,7 @@ def items(tier: str, seed: int) -> list[dict]:
                 "fault": None, "p": b["preemptions_other"], "e": 0, "max_examples": 2, "unique": False, "ctrl_c": False}
         base.update(kw)
         base["phases"] = ["probing"] + base["phases"]  # the CLI always enables the probing phase
-        out.append(base)
+        out.extend(ee.sharded(base, 4 if base["workers"] > 1 and base["p"] > 0 else 1))
 
     # fault-free runs: conforming API (converse direction) and failing API
     for phases in (["fuzzing"], ["examples", "coverage", "fuzzing"]):
@@ -177,8 +177,11 @@ def judge(item: dict, run: Any, r: Any, fault_state: Any, res: Result, current_i
         return
     # which operations had a failing check because of the API's behaviour
     failing_paths = set()
+    op_paths = {op.split(" ", 1)[1] for op in OPS[item["doc"]]}
     for x in r.exchanges:
-        if x.status is not None and x.status >= 500:
+        # requests of the probing phase (OPTIONS/GET on the base path) are not operations of the document
+        is_operation = x.path in op_paths or (item["doc"] == "link" and x.path.startswith("/users/"))
+        if x.status is not None and x.status >= 500 and is_operation:
             failing_paths.add(x.path)
     something_wrong = fired or bool(failing_paths) or bool(r.worker_errors)
     bad_scenarios = [e for e, n in zip(events, names) if n == "ScenarioFinished" and getattr(e.status, "name", "") in ("FAILURE", "ERROR")]
@@ -209,7 +212,8 @@ def judge(item: dict, run: Any, r: Any, fault_state: Any, res: Result, current_i
                 if info is None or not getattr(info, "code_sample", None) or inter is None or inter.request is None:
                     bad("check_failure_without_request", phase=_phase_name(e))
         # attribution: the failing operation is named
-        if failing_paths and not fired and "stateful" not in item["phases"]:
+        if failing_paths and not fired and "stateful" not in item["phases"] and item.get("max_failures") is None:
+            # (with a failure limit the run stops at the limit by design - C12 - and later failures are not reported)
             labels = {getattr(e, "label", None) for e in bad_scenarios} | {getattr(e, "label", None) for e in errors}
             for path in failing_paths:
                 if not any(lab and lab.endswith(" " + path) for lab in labels):
